@@ -1288,7 +1288,10 @@ def run(repo, rep):
     resmodel.report_situations(repo, rep, 'R11h', (
         'single-sweep', 'sweep-before-delegates', 'sweep-after-mapping',
         'positional-before-keyword', 'lazy-untouched',
-        'delegates-get-values', 'no-evaluation-when-unmatched'),
+        'delegates-get-values', 'no-evaluation-when-unmatched',
+        # the lazy set of the sweep is read off the mapping by the keyword
+        # the caller wrote: the mapping must be keyed that way
+        'map-pairs-values-with-parameters'),
         'the argument sweep')
     resmodel.guarded(repo, rep, 'R11a', check_r11a, repo, rep)
     resmodel.guarded(repo, rep, 'R11f', check_lazy_keys, repo, rep)
